@@ -346,16 +346,31 @@ impl Prop for C19 {
             // NUL at every position of 300 paths
             let _g = FD_LOCK.read().unwrap_or_else(|p| p.into_inner());
             let step = (all.len() / 300).max(1);
-            for p in all.iter().step_by(step).take(300) {
+            let mut picked: Vec<String> = all.iter().step_by(step).take(300).cloned().collect();
+            // paths whose prefix before the NUL names something that exists (a NUL-truncated C string
+            // would open it), with and without a .gz sibling
+            for p in ["a", "b", "c", "d", "e", "sub", "sub/a", "sub/sub/a", "./a", "sub/./a", "...", "a.gz", "sub/..."] {
+                picked.push(p.to_string());
+                picked.push(format!("{}/x", p));
+                picked.push(format!("{}x", p));
+            }
+            for p in &picked {
                 for pos in 0..=p.len() {
-                    if !sink.admit() {
-                        continue;
-                    }
                     let mut bytes = p.clone().into_bytes();
                     bytes.insert(pos, 0);
-                    let c = DirCase { path: bytes, accept_encoding: if pos % 2 == 0 { Some(b"gzip".to_vec()) } else { None }, auto_gzip: pos % 3 != 0 };
-                    let (v, nt, desc) = run_dir(&c, sink);
-                    sink.record(v, nt, &|| desc.clone());
+                    for (k, ae) in [None, Some(&b"gzip"[..]), Some(&b"*"[..])].into_iter().enumerate() {
+                        for auto_gzip in [true, false] {
+                            if !auto_gzip && k == 2 {
+                                continue;
+                            }
+                            if !sink.admit() {
+                                continue;
+                            }
+                            let c = DirCase { path: bytes.clone(), accept_encoding: ae.map(|v| v.to_vec()), auto_gzip };
+                            let (v, nt, desc) = run_dir(&c, sink);
+                            sink.record(v, nt, &|| desc.clone());
+                        }
+                    }
                 }
             }
         } else {
